@@ -30,9 +30,11 @@ const (
 
 var UTC = time.UTC
 
-func Unix(sec, nsec int64) Time                 { return time.Unix(sec, nsec) }
-func ParseDuration(s string) (Duration, error)  { return time.ParseDuration(s) }
-func Date(y int, m Month, d, h, mi, s, ns int, l *Location) Time { return time.Date(y, m, d, h, mi, s, ns, l) }
+func Unix(sec, nsec int64) Time                { return time.Unix(sec, nsec) }
+func ParseDuration(s string) (Duration, error) { return time.ParseDuration(s) }
+func Date(y int, m Month, d, h, mi, s, ns int, l *Location) Time {
+	return time.Date(y, m, d, h, mi, s, ns, l)
+}
 
 var epoch = time.Unix(1_700_000_000, 0)
 
@@ -60,9 +62,9 @@ type Timer struct {
 	fn    func()
 }
 
-func Now() Time              { mu.Lock(); defer mu.Unlock(); return epoch.Add(Duration(now)) }
-func Since(t Time) Duration  { return Now().Sub(t) }
-func Until(t Time) Duration  { return t.Sub(Now()) }
+func Now() Time                    { mu.Lock(); defer mu.Unlock(); return epoch.Add(Duration(now)) }
+func Since(t Time) Duration        { return Now().Sub(t) }
+func Until(t Time) Duration        { return t.Sub(Now()) }
 func After(d Duration) <-chan Time { return NewTimer(d).C }
 func Tick(d Duration) <-chan Time  { panic("vtime: Tick is not modelled") }
 
